@@ -1,6 +1,7 @@
 import PkgModel.Generated.PySrc
 import PkgModel.Specifier
 import PkgProofs.Props.Src.SpecEqual
+import PkgProofs.Lemmas.SrcRobust
 /-!
 # Translated source of `Specifier.prereleases`, `.contains`, `.filter` = the model (`S.Spec.prereleases/contains/filter`)
 -/
@@ -20,62 +21,28 @@ theorem Specifier.operator_eq_model (sp : Spec) (ov) : Gen.PySrc.Specifier.opera
 theorem Specifier.version_eq_model (sp : Spec) (ov) : Gen.PySrc.Specifier.version (ofSpec sp ov) = .ok (.str sp.ver) := by
   simp [Gen.PySrc.Specifier.version]
 
-/-- `try: parsed = Version(t) except InvalidVersion: return False` followed by `if parsed.is_prerelease: return True`,
-`return False` — as Lean's `do` notation elaborates the early returns -/
-theorem prerelease_body (t : Str) :
-    (do
-      let e ←
-        tryCatch
-            (do
-              let parsed_version ← mkVersion "Version" (PyVal.str t)
-              ExceptT.run ((pure () : StateT PyVal (ExceptT PyVal M) Unit) parsed_version))
-            fun __e4 =>
-            if catches "InvalidVersion" __e4 = true then (EarlyReturnT.return (PyVal.bool false) : M (Except PyVal (Unit × PyVal)))
-            else do
-              let __r ← (throw __e4 : M Unit)
-              ExceptT.run ((pure __r : StateT PyVal (ExceptT PyVal M) Unit) PyVal.unbound)
-      EarlyReturn.runK e (fun r => (Except.ok r : M PyVal)) fun p => do
-          let __do_lift ← Gen.PySrc.Version.is_prerelease p.snd
-          if truthy __do_lift = true then Except.ok (PyVal.bool true) else Except.ok (PyVal.bool false)) =
-      Except.map PyVal.bool (match scan t with | some v => Except.ok v.isPre | none => Except.ok false) := by
-  simp only [mkVersion_eq_model, S.version]
-  cases hsc : scan t with
-  | none => rfl
-  | some v =>
-    simp only [Except.map, ok_bind]
-    show (do let x ← Gen.PySrc.Version.is_prerelease (ofVer "Version" v); if truthy x = true then Except.ok (PyVal.bool true) else Except.ok (PyVal.bool false)) = _
-    rw [Version.is_prerelease_eq_model]
-    cases v.isPre <;> rfl
-
-/-- `Specifier.prereleases` -/
+/-- `Specifier.prereleases`.  The proof evaluates the translated block symbolically (`src_simp`): it does not depend on how
+the operator test is spelled (list / set / named constant, nested or early return), on the order of the two `.*` tests, nor
+on where the `try` returns. -/
 theorem Specifier.prereleases_eq_model (sp : Spec) (ov : Option Bool) :
     Gen.PySrc.Specifier.prereleases (ofSpec sp ov) = (sp.prereleases ov).map PyVal.bool := by
   unfold Gen.PySrc.Specifier.prereleases Spec.prereleases
   cases ov with
   | some b => cases b <;> simp [ofOptBool, Except.map, pure, Except.pure]
   | none =>
-    simp only [getattr_spec_pre, ofOptBool, ok_bind, isNone_none, Bool.not_true, Bool.false_eq_true, if_false,
-      getattr_spec_spec, unpack2, iterate_tuple, pure_ok]
     obtain ⟨op, ver⟩ := sp
     have hsl : getslice (PyVal.str ver) PyVal.none (PyVal.int (-2)) = .ok (.str (ver.take (ver.length - 2))) :=
       getslice_str_neg ver 2 (by omega)
-    have hmem : ∀ o : S.Op, contains (PyVal.list [PyVal.str (ofString "=="), PyVal.str (ofString ">="), PyVal.str (ofString "<="),
-        PyVal.str (ofString "~="), PyVal.str (ofString "==="), PyVal.str (ofString ">"), PyVal.str (ofString "<")])
-        (PyVal.str o.str) = .ok (o != .ne) := by
-      intro o; cases o <;> rfl
-    simp only [hmem, ok_bind]
-    cases op
-    case ne => rfl
-    case eq =>
-      simp only [S.Op.str, PyRt.eq, eq_str, beq_self_eq_true, truthy_bool, if_true, show ofString ".*" = [46, 42] from rfl,
-        str_endswith_str, ok_bind, show (Op.eq != Op.ne) = true from rfl, show (Op.eq == Op.eq) = true from rfl, Bool.true_and]
-      cases endsWith ver [46, 42]
-      · exact prerelease_body ver
-      · simp only [if_true, hsl, ok_bind]
-        exact prerelease_body _
-    all_goals
-      simp only [S.Op.str, PyRt.eq, eq_str, truthy_bool, ok_bind, pure_ok]
-      exact prerelease_body ver
+    have hdot : ofString ".*" = [46, 42] := rfl
+    have hmk : ∀ t : Str, mkVersion "Version" (.str t) = (match scan t with | some v => .ok (ofVer "Version" v) | none => .error "InvalidVersion") := by
+      intro t; simp only [mkVersion]; cases scan t <;> rfl
+    cases op <;> cases he : endsWith ver [46, 42] <;>
+      simp only [getattr_spec_pre, ofOptBool, ok_bind, isNone_none, getattr_spec_spec, unpack2, iterate_tuple, pure_ok, S.Op.str,
+        str_endswith_str, hdot, he, PyRt.eq, eq_str, truthy_bool, hsl, hmk] <;>
+      (first
+        | (cases hsc : scan ver <;> src_simp [hsc, pure, Except.pure, Version.is_prerelease_eq_model, catches] <;> done)
+        | (cases hsc : scan (List.take (ver.length - 2) ver) <;>
+            src_simp [hsc, pure, Except.pure, Version.is_prerelease_eq_model, catches] <;> done))
 
 theorem _coerce_version_eq_model (v : Ver) : Gen.PySrc._coerce_version (ofVer "Version" v) = .ok (ofVer "Version" v) := by
   have : isinstance (ofVer "Version" v) ["Version", "_TrimmedRelease"] = true := by simp [isinstance, className_ofVer]
